@@ -392,6 +392,37 @@ def compareById (blocks : List Block) (plain showProc : Bool) (store : List (Str
   | some b, some c => metricsTable blocks plain showProc b c
   | _, _ => .error .notFound
 
+/-! ### several comparisons through ONE reporter object -/
+
+/-- what a call can change on a `ComparisonReporter` instance: `self.plain` (every other attribute is set in
+    `__init__` from the configuration and only read) -/
+structure RState where
+  plain : Bool
+
+/-- `_metrics_table(b, c, plain)` or `report(r1, r2)` on the instance -/
+inductive Call
+  | table (plain : Bool) (b c : Stats)
+  | report (b c : Stats)
+
+/-- a table built while the instance is in state `s` (`_diff` reads `self.plain`) -/
+def tableIn (blocks : List Block) (showProc : Bool) (s : RState) (b c : Stats) : Except Err (List Row) :=
+  metricsTable blocks s.plain showProc b c
+
+/-- one call: `_metrics_table` first stores its argument in `self.plain`; `report` builds the plain table (report
+    file) and then the rich table (console) -/
+def callStep (blocks : List Block) (showProc : Bool) (s : RState) : Call → RState × List (Except Err (List Row))
+  | .table p b c => (⟨p⟩, [tableIn blocks showProc ⟨p⟩ b c])
+  | .report b c => (⟨false⟩, [tableIn blocks showProc ⟨true⟩ b c, tableIn blocks showProc ⟨false⟩ b c])
+
+/-- a history of calls on one instance, starting in state `s` -/
+def runSession (blocks : List Block) (showProc : Bool) : RState → List Call → List (List (Except Err (List Row)))
+  | _, [] => []
+  | s, c :: cs => (callStep blocks showProc s c).2 :: runSession blocks showProc (callStep blocks showProc s c).1 cs
+
+/-- the same call on a reporter of its own -/
+def freshCall (blocks : List Block) (showProc : Bool) (c : Call) : List (Except Err (List Row)) :=
+  (callStep blocks showProc ⟨false⟩ c).2
+
 /-- substring test used by the direction table -/
 def hasInfix (pat : Str) : Str → Bool
   | [] => pat.isEmpty
